@@ -6,7 +6,7 @@ from vt.core import R, rng_for, dn, meta_problem, quiet
 ID = 'C15'
 LEVEL = 'exploration'
 RULE = ('complete enumeration of state dimension {1,2,3} x snapshot count {1,2,3,5} x number of modes {1,2,3} x per-mode function '
-        'list (every window of length 1-3 over six family representatives) x data family (generic, repeated snapshots, integer values, integer dtype); hocur additionally on EVERY zero pattern of the data matrix (2-3 modes) '
+        'list (every window of length 1-3 over six family representatives) x data family (generic, repeated snapshots, integer values, integer dtype); hocur additionally on integer-dtype data, on data of magnitude 6, with an integer-valued (indicator) first mode, and on EVERY zero pattern of the data matrix (2-3 modes) '
         'for basis_decomposition; function lists x add_one x single_core for coordinate_major / function_major; gram over all '
         'pairs of snapshot counts; hocur over ranks {1..m, m+2} (int and list) x repeats {1,2} x multiplier {1,2,10}. Oracle: '
         'explicit loop over multi-indices and snapshots. Non-trivial: more than one mode or more than one snapshot.')
@@ -69,6 +69,14 @@ def cases(tier):
                             for rep in (1, 2):
                                 for mult in (1, 2, 10):
                                     yield {'k': 'hocur', 'd': d, 'm': m, 'ws': [list(w) for w in ws], 'rk': rk, 'rlist': rlist, 'rep': rep, 'mult': mult}
+                    # integer-dtype data (distinct non-zero snapshots), and an integer-valued basis function (indicator) ahead of
+                    # real-valued ones: the transformed tensor is real all the same
+                    for fam in ('intdtype', 'indicator', 'big'):
+                        if fam == 'indicator' and p != 2:
+                            continue          # (exact zeros of the tensor with >= 3 modes: see the recorded finding)
+                        for rk in (m, m + 2):
+                            for mult in (2, 10):
+                                yield {'k': 'hocur', 'd': d, 'm': m, 'ws': [list(w) for w in ws], 'rk': rk, 'rlist': False, 'rep': 1, 'mult': mult, 'fam': fam}
     # data with exact zeros (every zero pattern of the d x m data matrix, fixed non-zero values): the first basis functions
     # vanish there, so the initial column candidates (a fixed prefix, widened by `multiplier`) decide whether the ranks are found
     for d in (1, 2):
@@ -185,10 +193,19 @@ def run_case(case, seed):
             for kk, (c, j) in enumerate(itertools.product(range(d), range(m))):
                 if case['mask'] >> kk & 1:
                     x[c, j] = 0.0
+        elif case.get('fam') == 'intdtype':
+            perm = [3, 1, 4, 2, 5][:m]
+            x = np.array([[perm[j] if c == 0 else ((perm[j] * 2 + c) % (m + 1)) + 1 for j in range(m)] for c in range(d)], dtype=np.int64)
+            x = x[:, np.argsort(perm)[::-1]]
         else:
             x = data(rng, d, m, 'gauss')
+            if case.get('fam') == 'big':
+                x = 6.0 * x                 # transformed entries up to ~1e4: rank decisions must be relative to the data's scale
         x0 = x.copy()
         basis = basis_from(case['ws'], d)
+        if case.get('fam') == 'indicator':
+            # first mode: indicator functions of a partition of the range of coordinate 0 (integer-valued), then real-valued functions
+            basis[0] = [tdt.IndicatorFunction(0, -10.0, 0.0), tdt.IndicatorFunction(0, 0.0, 10.0)]
         n = [len(b) for b in basis]
         p = len(basis)
         rk = case['rk']
